@@ -391,6 +391,146 @@ func c06Tree(r gen.R, shape string, o ISOOpts) Tree {
 	return t
 }
 
+// c06RecordSum reads the directory at (extent, size) of an image raw and returns the sum of its record lengths.
+func c06RecordSum(rd isock.Reader, ext, size uint32, bs int64) (sum int64, nrec int) {
+	for blk := int64(0); blk*bs < int64(size); blk++ {
+		buf := rd(int64(ext)*bs+blk*bs, int(bs))
+		for pos := int64(0); pos < int64(len(buf)); {
+			l := int64(buf[pos])
+			if l == 0 {
+				break
+			}
+			sum += l
+			nrec++
+			pos += l
+		}
+	}
+	return
+}
+
+// c06Steer grows and shrinks names of a small tree, re-building the image each time, until the records of
+// the target directory (root or "sub" of the primary tree, or the Joliet root) add up to exactly one logical
+// block: the boundary where a record either still fits or has to move to the next block. The feedback comes
+// from reading the directory raw, so the boundary is reached whatever record sizes the code under test uses.
+func c06Steer(o ISOOpts, target string, res *core.Result) (Tree, bool) {
+	bs := o.Block
+	if bs == 0 {
+		bs = 2048
+	}
+	dir := ""
+	if target == "primary-sub" {
+		dir = "sub/"
+	}
+	extra := make([]int, 400) // extra name characters of adjustable file i
+	nfiles := 4
+	maxExtra := 6 // 8.3 names
+	if o.RockRidge || target == "joliet-root" {
+		maxExtra = 50
+	}
+	build := func() Tree {
+		t := Tree{{Path: "sub", Dir: true}, {Path: "sub/inner.txt", Size: 100, Seed: 77}, {Path: "zlast.bin", Size: 300, Seed: 78}}
+		if target != "primary-sub" && o.Joliet {
+			t = Tree{{Path: "zlast.bin", Size: 300, Seed: 78}} // Joliet trees with a subdirectory are a known finding
+		}
+		for i := 0; i < nfiles; i++ {
+			// with long names in play the 8.3 part is kept saturated, so that one more character changes
+			// only the long-name part of the record
+			fill := ""
+			if maxExtra > 6 {
+				fill = "qqqqqq"
+			}
+			t = append(t, TNode{Path: fmt.Sprintf("%s%c%c%s%s.d", dir, 'a'+rune(i/26), 'a'+rune(i%26), fill, strings.Repeat("x", extra[i])), Size: 10 + i, Seed: uint64(200 + i)})
+		}
+		return t
+	}
+	size := int64(8 << 20)
+	for iter := 0; iter < 120; iter++ {
+		t := build()
+		st := monstore.NewMem(size)
+		err, pi := guardErr(func() error { return buildISO(st, size, 0, o, t) })
+		if err != nil || pi != nil {
+			return t, false
+		}
+		rd := func(off int64, n int) []byte {
+			if off >= size {
+				return nil
+			}
+			return st.Peek(off, n)
+		}
+		img := isock.Parse(rd, size)
+		vol := img.Primary
+		if target == "joliet-root" {
+			vol = img.Joliet
+		}
+		if vol == nil {
+			return t, false
+		}
+		ext, dsz := vol.RootExtent, vol.RootSize
+		if target == "primary-sub" {
+			n := vol.Find("sub")
+			if n == nil {
+				n = vol.Find("SUB")
+			}
+			if n == nil {
+				return t, false
+			}
+			ext, dsz = n.Extent, n.Size
+		}
+		sum, _ := c06RecordSum(rd, ext, dsz, bs)
+		res.Count("steer.builds", 1)
+		gap := bs - sum
+		per := int64(1)
+		if target == "joliet-root" {
+			per = 2 // UCS-2
+		}
+		switch {
+		case gap == 0:
+			return t, true
+		case gap < 0:
+			need := (-gap + per - 1) / per
+			done := false
+			for i := nfiles - 1; i >= 0 && need > 0; i-- {
+				if extra[i] > 0 {
+					k := min(int64(extra[i]), need)
+					extra[i] -= int(k)
+					need -= k
+					done = true
+				}
+			}
+			if !done {
+				if nfiles <= 1 {
+					return t, false
+				}
+				nfiles--
+			}
+		default:
+			room := int64(0)
+			for i := 0; i < nfiles; i++ {
+				room += int64(maxExtra - extra[i])
+			}
+			need := gap / per
+			if need > room || need == 0 {
+				if nfiles >= len(extra) {
+					return t, false
+				}
+				nfiles += int(max(1, (need-room)/(60/per))) // a record is at least ~40 bytes: never overshoots by much
+				nfiles = min(nfiles, len(extra))
+				continue
+			}
+			for i := 0; i < nfiles && need > 0; i++ {
+				k := min(int64(maxExtra-extra[i]), need)
+				k -= k % 2 // even steps change a record's length by exactly the same amount
+				if k == 0 && need == 1 {
+					k = 1
+				}
+				extra[i] += int(k)
+				need -= k
+			}
+		}
+	}
+	return build(), false
+}
+
 // c06Facts are the structural facts of a tree that the cause predicates refer to.
 type c06Facts struct {
 	maxDepth      int
@@ -451,6 +591,16 @@ func c06Run(c core.Case, env *core.Env) core.Result {
 	var res core.Result
 	r := gen.New(c.Seed)
 	t := p.Tree
+	if t == nil && strings.HasPrefix(p.Shape, "sector-fit:") {
+		var ok bool
+		t, ok = c06Steer(p.Opts, strings.TrimPrefix(p.Shape, "sector-fit:"), &res)
+		if ok {
+			res.Mark("records of a directory add up to exactly one block (" + strings.TrimPrefix(p.Shape, "sector-fit:") + ")")
+			res.Count("steer.reached", 1)
+		} else {
+			res.Count(fmt.Sprintf("steer.not_reached.%s.rr%v.j%v.b%d", strings.TrimPrefix(p.Shape, "sector-fit:"), p.Opts.RockRidge, p.Opts.Joliet, p.Opts.Block), 1)
+		}
+	}
 	if t == nil {
 		t = c06Tree(r, p.Shape, p.Opts)
 	}
@@ -583,13 +733,13 @@ func c06Run(c core.Case, env *core.Env) core.Result {
 func init() {
 	shapes := []string{"mixed", "flat-many", "collisions", "deep", "sizes", "longnames"}
 	core.Register(&core.Check{
-		ID:    "C06",
-		Level: "exploration",
-		Rule: "generated workspace trees (mixed; one directory with 130-330 files; 2-40 names colliding after 8.3 truncation; depth 7-11; sizes 0,1,block-1,block,block+1,...,3 MiB; long and Unicode names incl. Rock Ridge names needing continuation areas; symlinks under Rock Ridge) x {plain, Rock Ridge, Joliet, both} x block size {2048, 4096, 8192} x DeepDirectories x start {0, 1 MiB}; every file carries unique content so image files are matched to source files by content; the finalized image is walked through iso9660.Read (structure, byte-identical contents, names exact under RR/Joliet, members of the documented 8.3 rule otherwise) and through the independent reader isock over the primary volume descriptor (same files by content, extents inside the image, no overlaps); a Finalize refusal is an observation; non-trivial = tree accepted by Finalize; distinct = distinct (options, start, tree)",
+		ID:          "C06",
+		Level:       "exploration",
+		Rule:        "generated workspace trees (mixed; one directory with 130-330 files; 2-40 names colliding after 8.3 truncation; depth 7-11; sizes 0,1,block-1,block,block+1,...,3 MiB; long and Unicode names incl. Rock Ridge names needing continuation areas; symlinks under Rock Ridge; steered trees in which the records of the root, of a subdirectory or of the Joliet root add up to exactly one logical block - names are grown and shrunk with the raw directory re-read after every build until the sum is exact) x {plain, Rock Ridge, Joliet, both} x block size {2048, 4096, 8192} x DeepDirectories x start {0, 1 MiB}; every file carries unique content so image files are matched to source files by content; the finalized image is walked through iso9660.Read (structure, byte-identical contents, names exact under RR/Joliet, members of the documented 8.3 rule otherwise) and through the independent reader isock over the primary volume descriptor (same files by content, extents inside the image, no overlaps); a Finalize refusal is an observation; non-trivial = tree accepted by Finalize; distinct = distinct (options, start, tree)",
 		Assumptions: []string{"isock (internal/isock) is an independent ECMA-119/SUSP/RRIP reader calibrated on hand-made images", "isock rules outside the statement (directory length not a block multiple, dot entries, path tables, record order, SUSP details, Joliet tree extents) are recorded, not reported", "symlinks are only put into Rock Ridge trees; Joliet names are BMP and at most 64 units"},
-		MinSigs:   map[string]int{"quick": 25, "thorough": 500},
-		NeedMarks: []string{"mode plain", "mode rockridge", "mode joliet", "mode rr+joliet", "image inside a partition", "block 4096", "shape collisions", "shape deep", "shape flat-many"},
-		CPUSec:    600,
+		MinSigs:     map[string]int{"quick": 25, "thorough": 500},
+		NeedMarks:   []string{"mode plain", "mode rockridge", "mode joliet", "mode rr+joliet", "image inside a partition", "block 4096", "shape collisions", "shape deep", "shape flat-many", "records of a directory add up to exactly one block (primary-root)", "records of a directory add up to exactly one block (primary-sub)", "records of a directory add up to exactly one block (joliet-root)"},
+		CPUSec:      600,
 		Cases: func(seed int64, tier string) []core.Case {
 			r := gen.New(seed ^ 0xC06)
 			n := 48
@@ -604,6 +754,25 @@ func init() {
 					o.Deep = i%8 >= 4
 				}
 				cs = append(cs, core.MkCase(fmt.Sprintf("tree-%d", i), "tree", r.Int63(), c06Case{Opts: o, Start: []int64{0, 0, 1 << 20}[i%3], Shape: shape}))
+			}
+			// steered trees: the records of one directory add up to exactly one block
+			for _, blk := range []int64{2048, 4096} {
+				for _, m := range []ISOOpts{{}, {RockRidge: true}, {Joliet: true}, {RockRidge: true, Joliet: true}} {
+					for _, tg := range []string{"primary-root", "primary-sub", "joliet-root"} {
+						if (tg == "joliet-root") != m.Joliet && tg == "joliet-root" {
+							continue
+						}
+						if tg == "primary-sub" && m.Joliet {
+							continue
+						}
+						if blk == 4096 && tier != "thorough" && tg != "primary-root" {
+							continue
+						}
+						o := m
+						o.Block, o.VolID = blk, "VERIF"
+						cs = append(cs, core.MkCase(fmt.Sprintf("fit-%s-%d-rr%v-j%v", tg, blk, m.RockRidge, m.Joliet), "tree", r.Int63(), c06Case{Opts: o, Shape: "sector-fit:" + tg}))
+					}
+				}
 			}
 			return cs
 		},
